@@ -2,6 +2,8 @@
 'VIOLATED' only when a violation that is NOT listed there appears."""
 C = "coordinates.py"
 ENTRIES = [
+    dict(name="neutral: east bound shifted by -180 instead of +180 (same residue)", expect="DISCHARGED", file="coordinates.py", old="        e = (e + 180) % 360 - 180", new="        e = (e - 180) % 360 - 180"),
+    dict(name="neutral: east bound shifted by 540", expect="DISCHARGED", file="coordinates.py", old="        e = (e + 180) % 360 - 180", new="        e = (e + 540) % 360 - 180"),
     dict(name="region check dropped", rule="R1", file=C, old="    _check_geographic_region([w, e, s, n])\n", new=""),
     dict(name="coordinates check dropped", rule="R1", file=C, old="        _check_geographic_coordinates(coordinates)\n", new=""),
     dict(name="wider-than-360 accepted", rule="R1", file=C, old="    if abs(e - w) > 360:\n        raise ValueError(", new="    if False:\n        raise ValueError("),
